@@ -128,6 +128,7 @@ Fixpoint peg (fuel : nat) (e : expr) (loc0 : nat) : res :=
       end
     | Enh _ _ ENot c => match peg f c loc with POk _ _ => PFail | PFail => POk loc [] | r => r end
     | Enh _ _ EFollowedBy c => match peg f c loc with POk _ _ => POk loc [] | r => r end
+    | Enh _ _ ELookahead c => match peg f c loc with POk _ _ => POk loc [] | r => r end
     | Enh _ _ (EGroup false) c => match peg f c loc with POk l ts => POk l [TList ts] | r => r end
     | Enh _ _ ESuppress c => match peg f c loc with POk l _ => POk l [] | r => r end
     | Enh _ _ EPass c => peg f c loc
@@ -190,7 +191,7 @@ Fixpoint in_class (e : expr) : bool :=
     plain_attrs a && match ign with [] => true | _ => false end && in_class c &&
     match k with
     | EOpt _ | EGroup false | ESuppress | EPass => child_ok a c
-    | ENot | EFollowedBy => true
+    | ENot | EFollowedBy | ELookahead => true
     | _ => false
     end
   | Rep a ign _ body None => plain_attrs a && match ign with [] => true | _ => false end && in_class body
@@ -220,7 +221,7 @@ Fixpoint in_ref_class (e : expr) : bool :=
     plain_attrs a && match ign with [] => true | _ => false end && in_ref_class c &&
     match k with
     | EOpt _ | EGroup false | ESuppress | EPass | ECombine _ => child_ok a c
-    | ENot | EFollowedBy => true
+    | ENot | EFollowedBy | ELookahead => true
     | _ => false
     end
   | Rep a ign _ body ne =>
